@@ -49,6 +49,9 @@ pub struct Script {
     pub call_only_first: u64,
     /// Bit mask of thread indices (0 = caller, N = divan-N) whose calls run the script (0 = every thread).
     pub call_thread_mask: u64,
+    /// Alternate, by call ordinal, between two orders of the same operations (both blocks live at once / one at a
+    /// time): identical tallies, different peaks.
+    pub call_peak_alt: bool,
     pub call_free: bool,
     /// Pre-filled stash (filled by the main thread before the run): `stash_n` blocks of `stash_size`
     /// bytes; every call (`stash_where` 0), generation (1) or input drop (2) frees one block and
@@ -94,6 +97,7 @@ impl Script {
             call_var: c.u64("cavar", 0),
             call_only_first: c.u64("caonly", 0),
             call_thread_mask: c.u64("camask", 0),
+            call_peak_alt: c.u64("caalt", 0) != 0,
             call_free: c.u64("cafree", 1) != 0,
             stash_n: c.u64("stash", 0),
             stash_size: c.u64("stashsz", 64),
@@ -327,6 +331,30 @@ fn churn(n: u64, size: u64) {
 /// Executes the scripted allocator traffic of one call.
 fn call_allocs(ord: u64) {
     let s = script();
+    if s.call_peak_alt {
+        let l = Layout::from_size_align(64, 8).unwrap();
+        unsafe {
+            if (ord / s.call_var.max(1)) % 2 == 0 {
+                // (volatile writes: an unused allocation may be optimised away)
+                let (a, b) = (alloc(l), alloc(l));
+                assert!(!a.is_null() && !b.is_null());
+                std::ptr::write_volatile(a, 1);
+                std::ptr::write_volatile(b, 2);
+                dealloc(a, l);
+                dealloc(b, l);
+            } else {
+                let a = alloc(l);
+                assert!(!a.is_null());
+                std::ptr::write_volatile(a, 1);
+                dealloc(a, l);
+                let b = alloc(l);
+                assert!(!b.is_null());
+                std::ptr::write_volatile(b, 2);
+                dealloc(b, l);
+            }
+        }
+        return;
+    }
     if s.call_ops.is_empty() || (s.call_only_first > 0 && ord >= s.call_only_first) {
         return;
     }
